@@ -1,7 +1,9 @@
 (* The std::io loops grenad relies on, over sinks and sources whose every call may accept
    fewer bytes than offered or report ErrorKind::Interrupted, following a schedule:
    Write::write_all over CountWrite, Read::read_exact, Read::read_to_end over Take. *)
+From Grenad.gen Require Consts.
 From Grenad.model Require Import Base Block Writer Reader.
+From Grenad.model Require Trailer.
 
 Inductive resp : Type :=
 | RAccept (n : N)        (* accept / deliver at most n bytes (n >= 1) *)
@@ -116,6 +118,40 @@ Definition load_block_sched (decompress : N -> bytes -> outcome bytes) (file : b
   | (_, Panic) => Panic
   | (_, Fail e) => Fail e
   end.
+
+(* Metadata::read_from on a scheduled source: the same seeks, every read_u32 / read_u64 / read_u8 a
+   read_exact under its own schedule ([scheds i] = the responses during the i-th read_exact) *)
+Definition read_exact_src (f : bytes) (pos n : N) (sched : list resp) : outcome (bytes * N) :=
+  match read_exact (S (length sched + N.to_nat n)) (mk_src f pos sched) n [] with
+  | (s', Done b) => Done (b, sr_pos s')
+  | (_, Fail e) => Fail e
+  | (_, Panic) => Panic
+  end.
+
+Definition open_meta_sched (scheds : N -> list resp) (f : bytes) : outcome Trailer.meta :=
+  do p <- Trailer.seek_end f 4;
+  do r <- read_exact_src f p 4 (scheds 0);
+  let magic := le_decode (fst r) in
+  if magic =? Consts.MAGIC_V1 then
+    do p <- Trailer.seek_end f (Consts.METADATA_V1_SIZE + 4);
+    do r1 <- read_exact_src f p 8 (scheds 1);
+    do r2 <- read_exact_src f (snd r1) 1 (scheds 2);
+    let codec := le_decode (fst r2) in
+    if Trailer.codec_known codec then
+      do r3 <- read_exact_src f (snd r2) 8 (scheds 3);
+      Done (Trailer.mk_meta Trailer.FormatV1 (le_decode (fst r1)) codec (le_decode (fst r3)) 0)
+    else Fail EInvalidCodec
+  else if magic =? Consts.MAGIC_V2 then
+    do p <- Trailer.seek_end f (Consts.METADATA_V2_SIZE + 4);
+    do r1 <- read_exact_src f p 8 (scheds 1);
+    do r2 <- read_exact_src f (snd r1) 1 (scheds 2);
+    let codec := le_decode (fst r2) in
+    if Trailer.codec_known codec then
+      do r3 <- read_exact_src f (snd r2) 8 (scheds 3);
+      do r4 <- read_exact_src f (snd r3) 1 (scheds 4);
+      Done (Trailer.mk_meta Trailer.FormatV2 (le_decode (fst r1)) codec (le_decode (fst r3)) (le_decode (fst r4)))
+    else Fail EInvalidCodec
+  else Fail EInvalidVersion.
 
 (* whole writer runs over the scheduled / fault-injecting sinks *)
 Definition w_run_sched (compress : N -> N -> bytes -> outcome bytes) (sched : list resp) (c : wcfg) (es : list entry)
